@@ -51,6 +51,7 @@ f_upper = z3.Function('upper', StrS, StrS)
 f_splitlines = z3.Function('splitlines', StrS, SeqVal)
 f_split = z3.Function('split', StrS, StrS, SeqVal)          # split(s, sep)
 f_join = z3.Function('join', StrS, SeqVal, StrS)            # join(sep, seq of VStr)
+f_wsplit = z3.Function('wsplit', StrS, SeqVal)              # s.split(): the whitespace-separated words of s
 f_replace_all = z3.Function('replace_all', StrS, StrS, StrS, StrS)
 f_encode = z3.Function('utf8', StrS, StrS)                  # str -> bytes (as latin-1 carried string)
 f_decode = z3.Function('unutf8', StrS, StrS)
@@ -86,6 +87,15 @@ AXIOMS['split'] = [
                                     z3.ForAll([_i], Implies(And(0 <= _i, _i < z3.Length(_q)),
                                                             And(is_str(_q[_i]), Not(z3.Contains(vs(_q[_i]), _t)))))),
                                 f_split(f_join(_t, _q), _t) == _q), patterns=[f_split(f_join(_t, _q), _t)]),
+]
+def _word(s, w):
+    """A-STR (partial): a word of s.split() is a non-empty string without blank, tab or newline that occurs in s"""
+    return And(is_str(w), z3.Length(vs(w)) > 0, z3.Contains(s, vs(w)), Not(z3.Contains(vs(w), z3.StringVal(' '))),
+               Not(z3.Contains(vs(w), z3.StringVal('\n'))), Not(z3.Contains(vs(w), z3.StringVal('\t'))))
+
+
+AXIOMS['wsplit'] = [
+    z3.ForAll([_s, _i], Implies(And(0 <= _i, _i < z3.Length(f_wsplit(_s))), _word(_s, f_wsplit(_s)[_i])), patterns=[f_wsplit(_s)[_i]]),
 ]
 AXIOMS['join'] = [
     z3.ForAll([_t], f_join(_t, z3.Empty(SeqVal)) == z3.StringVal(''), patterns=[f_join(_t, z3.Empty(SeqVal))]),
@@ -405,6 +415,9 @@ def m_splitlines(ex, st, recv, args, kwargs, node):
 
 @method('str', 'split')
 def m_split(ex, st, recv, args, kwargs, node):
+    if not args and not kwargs:
+        # whitespace split: only the partial axioms of wsplit are known (each word is a blank-free non-empty piece of s)
+        return [(st, new_list_from_seq(st, f_wsplit(vs(recv.term)), Ty.STR))], []
     if len(args) != 1 or not isinstance(args[0].ty, Ty.TStr):
         raise Unsupported('split form')
     sep = str_of(args[0])
@@ -658,6 +671,7 @@ AX_INST = {
                           [Implies(z3.Length(f_split(s, t)) > k, is_str(f_split(s, t)[k])) for k in range(4)] +
                           [Implies(And(z3.Length(t) > 0, Not(z3.Contains(s, t))), f_split(s, t) == z3.Unit(VStr(s)))],
     'utf8': lambda s: [f_decode(f_encode(s)) == s],
+    'wsplit': lambda s: [Implies(z3.Length(f_wsplit(s)) > k, _word(s, f_wsplit(s)[k])) for k in range(4)],
 }
 AX_INST['split'] = (lambda g: (lambda s, t: g(s, t) + [Implies(z3.Length(t) > 0, f_join(t, f_split(s, t)) == s)]))(AX_INST['split'])
 
